@@ -646,7 +646,26 @@ func GenCase(prop string, seed uint64, thorough bool) *Case {
 			c.Sched.YieldP = []float64{0.002, 0.01, 0.05}[r.intn(3)]
 		}
 	}
-	if prop == "C07" && r.p(0.3) {
+	if prop == "C07" && len(c.Clients) == 1 && r.p(0.15) {
+		// space is given back: K rounds of overwrite-everything + full compaction
+		ops := c.Clients[0]
+		for i := 0; i < 4; i++ {
+			ops = append(ops, Op{K: "iterrel", Slot: i})
+		}
+		for i := 0; i < 8; i++ {
+			ops = append(ops, Op{K: "snaprel", Slot: i})
+		}
+		K := r.rng(3, 6)
+		L := r.pick(20, 100, 400)
+		for round := 1; round <= K; round++ {
+			for _, k := range g.keys {
+				g.nextID++
+				ops = append(ops, Op{K: "put", Key: B(k), Val: V{ID: g.nextID, Len: L}})
+			}
+			ops = append(ops, Op{K: "compact"}, Op{K: "measure", Slot: round, Ms: K})
+		}
+		c.Clients[0] = ops
+	} else if prop == "C07" && r.p(0.3) {
 		// failed flushes/compactions: faults on table files only, so that
 		// every manifest commit that is attempted succeeds and the monitor's
 		// view of the live set stays exact
